@@ -418,7 +418,9 @@ func c07History(c *vc.Ctx, idx int) {
 		c.Inconclusive("save recording: %v", err)
 		return
 	}
-	defer os.Remove(recFile)
+	if os.Getenv("VERIF_C07_KEEPREC") == "" {
+		defer os.Remove(recFile)
+	}
 	self, _ := os.Executable()
 	raceBin := os.Getenv("VERIF_BIN_RACE")
 	// the replicas start after the primary has finished: a wall-clock value that leaked into
